@@ -391,7 +391,7 @@ func drawC11(t *rapid.T) *Case {
 func init() {
 	register(&CheckDef{ID: "C10", Level: "fault_enumeration", Engine: "A", Draw: drawC10,
 		Rule:     "random part: a faulty client (random bytes on the raw TCP connection; random / mutated / truncated HTTP/2 frame bytes or HTTP/1.1 garbage inside a real TLS session; abort at a random offset; injected I/O error or callback panic; 35%: back-end answers that outlive drawn -timeout-http-read / -timeout-http-write values) runs next to a concurrent control client and before a second control client; oracle: the worker process is alive and both control clients are served with correct fingerprints. Non-trivial: a fault fired or garbage was sent. Distinct: distinct controller action-label sequences.",
-		EnumRule: "enumerated part: 9360 boundary frames (every frame type 0-9 x 8 flag sets x length 0-12 x 9 pad-length octets around the frame length and around length minus the fixed fields) behind a legal preface and an open stream; 156 frames (every type 0-12 x 4 flag sets x own / other / zero stream) sent between a HEADERS frame without END_HEADERS and its CONTINUATION; then, over a fixed HTTP/1.1 session, a fixed HTTP/2 session and a fixed HTTP/1.1 session that upgrades the protocol and sends two messages through the tunnel: client disconnect (FIN and RST) after EVERY byte offset; a read error (ECONNRESET / timeout / generic), a write error (EPIPE / timeout) and a deadline-setter error at EVERY I/O operation index of the proxy side of the connection; a panic at EVERY occurrence of each user callback reachable from the connection goroutine (GetConfigForClient, GetCertificate, ConnState, header injector, request handler). After each case a control client performs a full request on a fresh connection. Quick tier: stride sample; thorough tier: every index.",
+		EnumRule: "enumerated part: 9360 boundary frames (every frame type 0-9 x 8 flag sets x length 0-12 x 9 pad-length octets around the frame length and around length minus the fixed fields) behind a legal preface and an open stream; 156 frames (every type 0-12 x 4 flag sets x own / other / zero stream) sent between a HEADERS frame without END_HEADERS and its CONTINUATION, and 52 two-frame cases there (a WINDOW_UPDATE with increment 0 on a stream - a stream error the frame reader survives - followed by a frame of every type); then, over a fixed HTTP/1.1 session, a fixed HTTP/2 session and a fixed HTTP/1.1 session that upgrades the protocol and sends two messages through the tunnel: client disconnect (FIN and RST) after EVERY byte offset; a read error (ECONNRESET / timeout / generic), a write error (EPIPE / timeout) and a deadline-setter error at EVERY I/O operation index of the proxy side of the connection; a panic at EVERY occurrence of each user callback reachable from the connection goroutine (GetConfigForClient, GetCertificate, ConnState, header injector, request handler). After each case a control client performs a full request on a fresh connection. Quick tier: stride sample; thorough tier: every index.",
 		Enum:     &EnumDef{Params: faultParams, Count: c10Count, Case: c10Case}})
 }
 
@@ -469,7 +469,24 @@ const nBoundaryFrames = 10 * 8 * 13 * 9
 // frames of every type 0-12 (four flag sets, on the block's stream / another stream / stream 0)
 // sent where only a CONTINUATION may follow: between a HEADERS frame without END_HEADERS and
 // its CONTINUATION
-const nInBlockFrames = 13 * 4 * 3
+// ... and 52 two-frame cases: a WINDOW_UPDATE with increment 0 for a stream (own / other), which
+// the frame parser refuses with a stream error - an error the reader survives -, padded or not
+// with the END_HEADERS bit, then a frame of every type 0-12
+const nInBlockFrames = 13*4*3 + 13*2*2
+
+func inBlockFrames(i int) []byte {
+	if i < 13*4*3 {
+		return inBlockFrame(i).Bytes()
+	}
+	i -= 13 * 4 * 3
+	wu := Frame{Type: FWindowUpdate, Stream: []uint32{1, 3}[i%2], Payload: []byte{0, 0, 0, 0}}
+	i /= 2
+	if i%2 == 1 {
+		wu.Flags = 0x4
+	}
+	i /= 2
+	return append(wu.Bytes(), inBlockFrame(i%13).Bytes()...)
+}
 
 func inBlockFrame(i int) Frame {
 	typ := uint8(i % 13)
@@ -551,12 +568,12 @@ func c10Case(p map[string]int, i int) *Case {
 	case "inblock":
 		// a frame where only a CONTINUATION may follow: HEADERS without END_HEADERS, the
 		// frame, then the CONTINUATION that would have completed the block
-		bf := inBlockFrame(fc.Idx)
+		bf := inBlockFrames(fc.Idx)
 		enc := NewHEnc()
 		pre := append([]byte(ClientPreface), FramesBytes(SettingsFrame())...)
 		block := enc.Block([][2]string{{":method", "GET"}, {":scheme", "https"}, {":authority", "fixed.verif.test"}, {":path", "/inblock"}, {"x-tag", "c0-r0"}, {"x-fill", strings.Repeat("f", 40)}})
 		hs := HeadersFrames(1, block, true, nil, -1, []int{7})
-		cp.Steps = []Step{{Kind: "connect"}, {Kind: "write", Pieces: [][]byte{append(pre, hs[0].Bytes()...)}}, {Kind: "write", Pieces: [][]byte{bf.Bytes()}}, {Kind: "write", Pieces: [][]byte{FramesBytes(hs[1:]...)}}, {Kind: "readeof"}, {Kind: "close"}}
+		cp.Steps = []Step{{Kind: "connect"}, {Kind: "write", Pieces: [][]byte{append(pre, hs[0].Bytes()...)}}, {Kind: "write", Pieces: [][]byte{bf}}, {Kind: "write", Pieces: [][]byte{FramesBytes(hs[1:]...)}}, {Kind: "readeof"}, {Kind: "close"}}
 		m.Reqs = nil
 		plan.Args = []string{"-timeout-http-idle", "2s"}
 	case "abort":
